@@ -76,7 +76,25 @@ pub enum Op {
     /// overwrite the minter's cw2 info when `stored` is given, then `who` migrates the minter to the same code
     Migrate { who: usize, stored: Option<(String, String)> },
     /// governance: sudo UpdateParams on the token-merge factory
-    SudoParams { max_limit: Option<u32>, airdrop_price: Option<u128>, shuffle_fee: Option<u128>, add_code_id: Option<u64>, offset: Option<u64> },
+    SudoParams {
+        max_limit: Option<u32>,
+        airdrop_price: Option<u128>,
+        shuffle_fee: Option<u128>,
+        add_code_id: Option<u64>,
+        offset: Option<u64>,
+        #[serde(default)]
+        frozen: Option<bool>,
+        #[serde(default)]
+        code_id: Option<u64>,
+        #[serde(default)]
+        rm_code_id: Option<u64>,
+        #[serde(default)]
+        creation_fee: Option<u128>,
+        #[serde(default)]
+        max_token_limit: Option<u32>,
+        #[serde(default)]
+        airdrop_fee_bps: Option<u64>,
+    },
 }
 impl Op {
     pub fn kind(&self) -> &'static str {
@@ -155,6 +173,7 @@ pub struct Obs {
     pub tgt_all: Vec<String>,       // AllTokens of the target collection
     pub tgt_supply: u64,            // NumTokens of the target collection
     pub cw2: (String, String),      // cw2 contract info of the minter
+    pub start_query: String,        // StartTime query
 }
 
 pub fn account(i: usize, w: &World) -> String {
@@ -404,26 +423,51 @@ pub fn apply(w: &mut World, op: &Op) -> Result<AppResponse, String> {
                 Err(p) => Err(p),
             }
         }
-        Op::SudoParams { max_limit, airdrop_price, shuffle_fee, add_code_id, offset } => {
+        Op::SudoParams { max_limit, airdrop_price, shuffle_fee, add_code_id, offset, frozen, code_id, rm_code_id, creation_fee, max_token_limit, airdrop_fee_bps } => {
             use token_merge_factory::msg::{SudoMsg, TokenMergeUpdateParamsExtension, UpdateMinterParamsMsg};
             let m = SudoMsg::UpdateParams(Box::new(UpdateMinterParamsMsg {
-                code_id: None,
+                code_id: *code_id,
                 add_sg721_code_ids: add_code_id.map(|c| vec![c]),
-                rm_sg721_code_ids: None,
-                frozen: None,
-                creation_fee: None,
+                rm_sg721_code_ids: rm_code_id.map(|c| vec![c]),
+                frozen: *frozen,
+                creation_fee: creation_fee.map(|a| coin(a, NATIVE)),
                 max_trading_offset_secs: *offset,
                 extension: TokenMergeUpdateParamsExtension {
-                    max_token_limit: None,
+                    max_token_limit: *max_token_limit,
                     max_per_address_limit: *max_limit,
                     airdrop_mint_price: airdrop_price.map(|a| coin(a, NATIVE)),
-                    airdrop_mint_fee_bps: None,
+                    airdrop_mint_fee_bps: *airdrop_fee_bps,
                     shuffle_fee: shuffle_fee.map(|a| coin(a, NATIVE)),
                 },
             }));
             let f = w.factory.clone();
             chain::sudo(&mut w.app, &f, &m)
         }
+    }
+}
+
+/// a SudoParams step that changes nothing; callers set the fields they want
+pub fn sudo_none() -> Op {
+    Op::SudoParams {
+        max_limit: None,
+        airdrop_price: None,
+        shuffle_fee: None,
+        add_code_id: None,
+        offset: None,
+        frozen: None,
+        code_id: None,
+        rm_code_id: None,
+        creation_fee: None,
+        max_token_limit: None,
+        airdrop_fee_bps: None,
+    }
+}
+pub fn sudo_frozen(f: bool) -> Op {
+    match sudo_none() {
+        Op::SudoParams { max_limit, airdrop_price, shuffle_fee, add_code_id, offset, code_id, rm_code_id, creation_fee, max_token_limit, airdrop_fee_bps, .. } => {
+            Op::SudoParams { max_limit, airdrop_price, shuffle_fee, add_code_id, offset, frozen: Some(f), code_id, rm_code_id, creation_fee, max_token_limit, airdrop_fee_bps }
+        }
+        _ => unreachable!(),
     }
 }
 
@@ -559,7 +603,9 @@ pub fn observe(w: &World, case: &Case) -> Obs {
             q.query_wasm_smart(&w.target, &sg721_base::msg::QueryMsg::NumTokens {}).expect("NumTokens");
         n.count
     };
+    let sq: token_merge_minter::msg::StartTimeResponse = q.query_wasm_smart(&w.minter, &Q::StartTime {}).expect("StartTime");
     Obs {
+        start_query: sq.start_time,
         cw2: crate::w_migrate::get_cw2(&w.app, &w.minter),
         positions,
         tgt_all,
